@@ -434,12 +434,13 @@ func init() {
 
 	register(&propertySpec{
 		ID: "C16", NeedCG: true, Quick: cfgAMD, Thorough: cfgAll,
-		Explanation: "Decides the structural conditions that finding slices at every offset rests on - not the checksum algebra. In par2.fillShardInfos the search looks at data[j : j+sliceByteCount] (padded) for the scan position j, advances by one byte exactly where the lookup was empty and by one slice exactly where it was not, starts at 0 and is left only when j has reached len(data) (ROLLSCAN R1/R2, SCANALL); a rolled checksum is used only in an iteration that follows a one-byte advance, is rolled from the previous window's checksum with data[j-1] leaving and the padded slice's last byte entering, by a window made for sliceByteCount, and every other iteration computes the full CRC of the same slice; the checksum looked up belongs to the slice looked up (ROLLSCAN R3/R4); the window's 256-entry table is written at every index (WINTAB); the lookup returns exactly the set filed under (crc, md5(slice)) (GETKEYS); expected and found locations accumulate, so a slice content found once is credited to every place it is expected (ACCUM); a slice's data is recorded only under a non-empty lookup of that very slice (GATE G7); writer and reader cut and pad slices with the same helper (PAIR slicing); every slice record of a file has an element for every checksum pair (SHARDTAB).",
+		Explanation: "Decides the structural conditions that finding slices at every offset rests on - not the checksum algebra. In par2.fillShardInfos the search looks at data[j : j+sliceByteCount] (padded) for the scan position j, advances by one byte exactly where the lookup was empty and by one slice exactly where it was not, starts at 0 and is left only when j has reached len(data) (ROLLSCAN R1/R2, SCANALL); a rolled checksum is used only in an iteration that follows a one-byte advance, is rolled from the previous window's checksum with data[j-1] leaving and the padded slice's last byte entering, by a window made for sliceByteCount, and every other iteration computes the full CRC of the same slice; the checksum looked up belongs to the slice looked up (ROLLSCAN R3/R4); the window's 256-entry table is written at every index (WINTAB); the search is run on the very bytes read from the file, on every path (MUSTPASS); the lookup returns exactly the set filed under (crc, md5(slice)) (GETKEYS); expected and found locations accumulate, so a slice content found once is credited to every place it is expected (ACCUM); a slice's data is recorded only under a non-empty lookup of that very slice (GATE G7); writer and reader cut and pad slices with the same helper (PAIR slicing); every slice record of a file has an element for every checksum pair (SHARDTAB).",
 		NotDecided:  []string{"the rolling CRC32 algebra: that update() returns the CRC of the shifted window (table values, the mask constant)", "that a slice overlapping an edit is the only thing lost (counting argument over offsets)", "the behaviour for slice sizes below 4 (newCRC32Window panics)"},
 		Run: func(w *World, r *Report, tier string) {
 			guard(r, "ROLLSCAN", func() { ruleROLLSCAN(w, r) })
 			guard(r, "SCANALL", func() { ruleSCANALL(w, r) })
 			guard(r, "WINTAB", func() { ruleWINTAB(w, r) })
+			guard(r, "MUSTPASS", func() { ruleMUSTPASS(w, r) })
 			guard(r, "GETKEYS", func() { ruleGETKEYS(w, r) })
 			guard(r, "ACCUM", func() { ruleACCUM(w, r) })
 			guard(r, "GATE", func() { r.rule("GATE", ruleGATEText); gateSlices(w, r) })
